@@ -1279,6 +1279,11 @@ class Normaliser:
                     continue
 
                 def branch(val: ast.AST) -> list[ast.stmt] | None:
+                    if len(names) > 1 and isinstance(val, (ast.Name, ast.Attribute)):
+                        # a row kept under its own constant name (DEFAULT_ROW = ('Q', 8))
+                        ref = self._const_table(val, mod, owner if owner is not None else cls)
+                        if ref is not None and isinstance(ref[0], (ast.Tuple, ast.List)):
+                            val = ref[0]
                     val = qualify(val)
                     if len(names) == 1:
                         mapping = {names[0]: val}
